@@ -246,6 +246,132 @@ class StyleCodes(Part):
             ctx.cls("mixed-kinds")
 
 
+def run_conversions(prog, preempt, tape, problems):
+    """Threads convert colours at the same time (two consoles, or direct API use): run under the deterministic scheduler with the conversion caches emptied."""
+    import rich.color
+    import rich.palette
+    from rich.color import Color, ColorSystem
+    from ..oracles.sched import Sched, Deadlock
+
+    pals = palettes()
+    for fn in (Color.downgrade, Color.parse, Color.get_ansi_codes, rich.palette.Palette.match):
+        fn.cache_clear()
+    s = Sched(dict((int(a), int(b)) for a, b in preempt), files={rich.color.__file__, rich.palette.__file__}, tape=tape)
+    results = []
+
+    def body(ti, ops):
+        def run():
+            for rgb, sysname in ops:
+                c = Color.from_rgb(*rgb)
+                d = c.downgrade(ColorSystem[sysname])
+                results.append((ti, tuple(rgb), sysname, d))
+        return run
+
+    for ti, ops in enumerate(prog["threads"]):
+        s.add(body(ti, ops), "T%d" % ti)
+    try:
+        s.run(timeout=30)
+    except Deadlock as e:
+        problems.append(("nearest", "C18/concurrent/deadlock", str(e)))
+        return s.step, s.switch_in_rich
+    for w in s.workers:
+        if w.exc is not None:
+            problems.append(("nearest", "C18/concurrent/exc-%s" % type(w.exc).__name__, "%s raised %r" % (w.name, w.exc)))
+    std, win, eight = pals
+    for ti, rgb, sysname, d in results:
+        pal = {"STANDARD": std, "WINDOWS": win, "EIGHT_BIT": eight}[sysname]
+        if d.number is None or not 0 <= d.number < len(pal):
+            problems.append(("gamut", "C18/concurrent/gamut", "thread %d: %r -> %s gave %r (schedule %r)" % (ti, rgb, sysname, d, s.trace[:4])))
+            continue
+        if sysname != "EIGHT_BIT":
+            got, best = dist(rgb, pal[d.number]), min(dist(rgb, p) for p in pal)
+            if got != best:
+                problems.append(("nearest", "C18/concurrent/nearest", "thread %d: %r -> %s picked %d at distance %d, minimum is %d, while another thread converted another colour (schedule %r)" % (
+                    ti, rgb, sysname, d.number, got, best, s.trace[:4])))
+    return s.step, s.switch_in_rich
+
+
+CONCURRENT_PROGRAMS = [
+    {"threads": [[[[160, 10, 10], "STANDARD"]], [[[10, 10, 160], "STANDARD"]]]},
+    {"threads": [[[[10, 160, 10], "WINDOWS"], [[200, 200, 0], "STANDARD"]], [[[120, 0, 120], "WINDOWS"]], [[[250, 250, 250], "STANDARD"], [[3, 3, 3], "WINDOWS"]]]},
+]
+
+
+class Concurrent(Part):
+    name = "concurrent"
+    rule = ("threads converting different RGB colours to the 16-colour systems at the same time (conversion caches emptied first), serialised by the deterministic scheduler with "
+            "preemption at every line of color.py and palette.py: 2 fixed programs x every single preemption (+ pairs in the thorough tier); every result is an entry of minimum distance for its own colour; non-trivial = the schedule switched threads inside a conversion")
+    custom = True
+    exhaustive = True
+    budget = {"quick": (8, 1), "thorough": (16, 1)}
+
+    def run_shard(self, tier, shard, nshards, seed, stats, deadline, known):
+        import time as _t
+
+        n = nt = 0
+        found = {}
+        jobs = []
+        for pi, prog in enumerate(CONCURRENT_PROGRAMS):
+            steps, _ = run_conversions(prog, [], [0], [])
+            nthreads = len(prog["threads"])
+            jobs += [(prog, [(k, c)]) for k in range(steps) for c in range(nthreads - 1)]
+            if tier == "thorough":
+                jobs += [(prog, [(a, 0), (b, c)]) for a in range(0, steps, 2) for b in range(a + 1, steps, 3) for c in range(nthreads - 1)][:8000]
+        for ji, (prog, sch) in enumerate(jobs):
+            if ji % nshards != shard:
+                continue
+            if _t.time() > deadline:
+                stats.capped = True
+                break
+            probs = []
+            _, sw = run_conversions(prog, sch, [0, 1, 2], probs)
+            n += 1
+            nt += 1 if sw else 0
+            for clause, sig, detail in probs:
+                if sig not in found:
+                    found[sig] = ({"prog": prog, "preempt": [list(x) for x in sch], "tape": [0, 1, 2]}, clause, detail)
+        stats.evaluations += n
+        stats.nontrivial_count_distinct += nt
+        if not stats.capped:
+            stats.done += 1
+        stats.samples.append((1, {"shard": shard, "schedules_run": n, "example": {"prog": CONCURRENT_PROGRAMS[0], "preempt": [[12, 0]]}}, "range"))
+        for sig, (spec, clause, detail) in found.items():
+            e = known.match(sig)
+            if e:
+                stats.excluded_known[e["id"]] = stats.excluded_known.get(e["id"], 0) + 1
+                continue
+            stats.found[sig] = {"spec": spec, "clause": clause, "detail": detail, "size": 1, "part": self.name}
+
+    def replay(self, spec, ctx):
+        probs = []
+        run_conversions(spec["prog"], spec["preempt"], spec["tape"], probs)
+        for clause, sig, detail in probs:
+            ctx.violation(clause, sig, detail)
+
+
+class ConcurrentGenerated(Part):
+    name = "concurrent-generated"
+    rule = ("generated programs (2-4 threads x 1-3 conversions of generated RGB colours to standard / windows / 256) x generated schedules (<= 4 preemptions, tie-break tape) "
+            "under the same scheduler; non-trivial = the schedule switched threads inside a conversion and two threads target the same 16-colour system")
+    budget = {"quick": (8, 150), "thorough": (16, 3000)}
+
+    def strategy(self, tier):
+        byte = st.one_of(st.integers(0, 255), st.sampled_from(BOUNDARY))
+        conv = st.tuples(st.tuples(byte, byte, byte).map(list), st.sampled_from(["STANDARD", "WINDOWS", "STANDARD", "EIGHT_BIT"])).map(list)
+        prog = st.lists(st.lists(conv, min_size=1, max_size=3), min_size=2, max_size=4).map(lambda t: {"threads": t})
+        pre = st.lists(st.tuples(st.integers(0, 400), st.integers(0, 3)).map(list), min_size=1, max_size=4)
+        return st.builds(lambda p, pre, tape: {"prog": p, "preempt": pre, "tape": tape}, prog, pre, st.lists(st.integers(0, 3), min_size=1, max_size=4))
+
+    def check(self, spec, ctx):
+        probs = []
+        _, sw = run_conversions(spec["prog"], spec["preempt"], spec["tape"], probs)
+        for clause, sig, detail in probs:
+            ctx.violation(clause, sig, detail)
+        targets = [set(sysname for _, sysname in ops if sysname != "EIGHT_BIT") for ops in spec["prog"]["threads"]]
+        if sw and any(a & b for i, a in enumerate(targets) for b in targets[i + 1:]):
+            ctx.nontrivial = True
+
+
 class Enumerated(Part):
     name = "enumerated"
     custom = True
@@ -375,4 +501,4 @@ class Enumerated(Part):
             check_codes(ctx, d)
 
 
-PARTS = [Generated(), Enumerated(), StyleCodes()]
+PARTS = [Generated(), Enumerated(), StyleCodes(), Concurrent(), ConcurrentGenerated()]
